@@ -109,6 +109,14 @@ class Ctx:
         if op == "conv" and len(t.args) == 1:
             return self.lin(t.args[0])
         if op == "len":
+            st = self._struct_len(t.args[0])
+            if st is not None:
+                if t.id not in self.seen:
+                    self.seen.add(t.id)
+                    # the vector exists, so its total length is an allocation size in elements
+                    self.side.append(st.add(Lin(2 ** (self.usize_bits - 1) - 1), -1))
+                    self.side.append(st.scale(-1))
+                return st
             first = t.id not in self.seen
             self.rng(t, 0, 2 ** (self.usize_bits - 1) - 1)
             v = t.args[0]
@@ -165,6 +173,67 @@ class Ctx:
         if op == "field" or op == "payload" or op == "param" or op == "phi" or op == "index" or op == "deref":
             return atom(t)
         return atom(t)
+
+    def _struct_len(self, v, depth=0):
+        """length of a byte / element vector from its construction (None: keep the opaque len atom): appends add up, a
+        fold or loop that appends a constant number of bytes per element contributes that constant times the number of
+        elements iterated (bounded by the lengths of the iterator's sources)"""
+        while is_t(v) and v.op in ("refv", "conv") and len(v.args) == 1:
+            v = v.args[0]
+        if not is_t(v) or depth > 12:
+            return None
+        op = v.op
+        if op == "append" or op == "push":
+            a = self._struct_len(v.args[0], depth + 1)
+            if a is None:
+                a = self.lin(mk("len", v.args[0])) if v.args[0].op not in ("append", "push") else None
+            if a is None:
+                return None
+            if op == "push":
+                return a.add(Lin(1))
+            b = self._struct_len(v.args[1], depth + 1)
+            if b is None:
+                b = self.lin(mk("len", v.args[1]))
+            return a.add(b)
+        if op == "vec_new":
+            return Lin(0)
+        if op == "bytes":
+            return Lin(len(v.args[0]) // 2)
+        if op == "agg" and v.args[0] == "array":
+            return Lin(len(v.args) - 1)
+        if op in ("bytes_of", "as_array") and isinstance(v.args[1], int):
+            return Lin(v.args[1])
+        if op == "fp_to_repr" and getattr(self, "repr_len", None):
+            return Lin(self.repr_len)
+        if op in ("from_elem", "copied"):
+            return self.lin(v.args[1])
+        if op == "owf":
+            return self.lin(v.args[2])
+        if op == "collected" and v.args[0].op == "mapped":
+            return None
+        if op in ("index", "elem") and is_t(v.args[0]) and v.args[0].op == "phi":
+            # an element of a vector that is filled by one push per loop iteration: every element has the pushed value's length
+            from . import query as Q
+            pr = Q.parts_of(v.args[0])
+            if len(pr) == 1 and pr[0][0] == "repeat" and len(pr[0][1]) == 1 and pr[0][1][0][0] == "byte" and is_t(pr[0][1][0][1]):
+                per = self._struct_len(pr[0][1][0][1], depth + 1)
+                if per is not None and per.is_const():
+                    return per
+            return None
+        if op == "fold" and len(v.args) == 4:
+            init, body, it, acc = v.args
+            if init.op == "vec_new" and body.op == "append" and body.args[0] is acc:
+                per = self._struct_len(body.args[1], depth + 1)
+                if per is None and body.args[1].op == "elem":
+                    # elements of a collected map: each has the structural length of the mapped body
+                    src = body.args[1].args[0]
+                    while is_t(src) and src.op in ("collected", "iter", "refv"):
+                        src = src.args[0]
+                    if is_t(src) and src.op == "mapped":
+                        per = self._struct_len(src.args[1], depth + 1)
+                if per is not None and per.is_const():
+                    return self.lin(mk("len_iter", it)).scale(per.c)
+        return None
 
     def _typed(self, t, ty):
         r = int_range(ty, self.usize_bits)
